@@ -37,6 +37,29 @@ def match_known(pr, prop, known):
     return None
 
 
+waived = set()
+_site_cache = {}
+
+
+def _probe_site_exists(name):
+    """True iff /repo's current sources still contain a `verif_probe!(<name>)` site"""
+    if name not in _site_cache:
+        import re
+        from nbv import build as _b
+        pat = re.compile(r'verif_probe!\(\s*%s\s*\)' % re.escape(name))
+        found = False
+        for root, _, files in os.walk(os.path.join(_b.REPO, 'src')):
+            for f in files:
+                if f.endswith('.rs'):
+                    try:
+                        if pat.search(open(os.path.join(root, f)).read()):
+                            found = True
+                    except OSError:
+                        pass
+        _site_cache[name] = found
+    return _site_cache[name]
+
+
 def _run_one_stage(prop, mod, st, only_stage, quiet, total, stage_info, inconclusive, group_of):
     if only_stage and st['label'] != only_stage:
         return
@@ -78,6 +101,11 @@ def _run_one_stage(prop, mod, st, only_stage, quiet, total, stage_info, inconclu
     # coverage floors are per stage when the stage names them
     for name in st.get('floors', []):
         if sr.probes.get(name, 0) == 0:
+            if not _probe_site_exists(name):
+                # the branch this floor stands for is no longer in the source (e.g. a refactor removed the path):
+                # nothing to reach, so nothing is missed.  Recorded in the evidence.
+                waived.add(name)
+                continue
             inconclusive.append('coverage floor missed in stage %s: probe %s was never hit' % (label, name))
     total.merge(sr)
 
@@ -133,6 +161,7 @@ def run_property(prop, tier, seed, only_stage=None, quiet=False):
             'foreign_observations': sorted({'%s: %s' % (','.join(sorted(p.props)), p.what) for p in foreign})[:20],
             'known_findings_seen': sorted({k['id'] for k, _ in knownhits}),
             'inconclusive': inconclusive[:20],
+            'floors_waived_site_absent': sorted(waived),
         },
         'assumptions': getattr(mod, 'ASSUMPTIONS', []),
         'wall_s': round(wall, 2),
